@@ -50,6 +50,13 @@ def lane_assign(inputs, rng: random.Random):
     return assign, (1 << L) - 1, L, False
 
 
+def float_round(v: int) -> int:
+    try:
+        return int(float(v))
+    except OverflowError:
+        return v
+
+
 def decode(vecs, L):
     """vecs: lane vectors of bits, least significant first -> list of L integers."""
     out = [0] * L
@@ -259,6 +266,20 @@ class HistArith(Hist):
             return
         nviol = len(self.res.violations)
         assign, mask, L, exh = lane_assign(pre.inputs, rng)
+        plant = spec.get('plant')
+        if plant and not exh and len(set(operands_snapshot)) == len(operands_snapshot) \
+                and all(pre.gates.get(x, ('',))[0] == 'INPUT' for x in operands_snapshot):
+            # operand values that random rows never hit (a comparison with a constant is true on one value only): the last
+            # lanes carry them.  `plant` yields one integer per planted lane, least significant operand gate first.
+            grp = spec['operands'](operands_snapshot)[0]
+            for k, value in enumerate(plant[: 16]):
+                lane = L - 1 - k
+                for i, x in enumerate(grp):
+                    if (value >> i) & 1:
+                        assign[x] |= 1 << lane
+                    else:
+                        assign[x] &= ~(1 << lane)
+            self.res.stats.probes.bump('operand-values-planted-in-sampled-rows')
         try:
             pre_val = pre.lanes(assign, mask)
         except ModelError:
@@ -502,7 +523,8 @@ def build_specs(eng):
     # ------------------------------------------------------------------ C07
     @add('C07', 'add_sum_n_bits', 3)
     def _(eng, rng):
-        n = weighted_choice(rng, [(1, 1), (2, 2), (3, 2), (rng.randint(4, 9), 6), (rng.randint(10, 24), 2), (rng.randint(25, 40), 1)])
+        n = weighted_choice(rng, [(1, 1), (2, 2), (3, 2), (rng.randint(4, 9), 6), (rng.randint(10, 24), 2), (rng.randint(25, 40), 1),
+                                  (rng.randint(60, 140), 0.5)])
         b, barg, sp = _basis_arg(eng, rng)
         big = rng.random() < 0.4
 
@@ -1021,6 +1043,11 @@ def build_specs(eng):
     def _(eng, rng):
         n = rng.randint(1, 7)
         num = weighted_choice(rng, [(rng.randrange(1 << n), 6), (0, 1), ((1 << n) - 1, 1), (1 << n, 1), ((1 << n) + rng.randint(1, 9), 1), (-rng.randint(1, (1 << n) + 2), 1)])
+        wide = rng.random() < 0.08
+        if wide:
+            # beyond the 53 bits a float carries exactly
+            n = rng.randint(50, 70)
+            num = rng.choice(((1 << 53) + 1, (1 << n) - 1, rng.getrandbits(n) | 1 | (1 << (n - 1)), (1 << (n - 1)) + 3)) & ((1 << n) - 1)
 
         def bind(host, chosen):
             return (lambda: A.add_equal(host, chosen, num)), f'add_equal({chosen},{num})'
@@ -1031,7 +1058,11 @@ def build_specs(eng):
                     return ('equal' + (':does-not-fit' if (num >= (1 << n) or num < 0) else ''), f'lane {j}: operand {ins[0][j]} const {num} -> {outs[0][j]}')
             return None
 
-        return dict(need=n, bind=bind, operands=lambda ch: [list(ch)], results=lambda rv: [[rv]], check=check)
+        spec = dict(need=n, bind=bind, operands=lambda ch: [list(ch)], results=lambda rv: [[rv]], check=check)
+        if wide:
+            near = [num, num ^ 1, num - 1, num + 1, float_round(num), num & ~0xFFF, 0, (1 << n) - 1]
+            spec.update(inputs_only=True, distinct_operands=True, plant=[v & ((1 << n) - 1) for v in near])
+        return spec
 
     @add('C09', 'add_plus_one', 4)
     def _(eng, rng):
@@ -1104,6 +1135,12 @@ def build_specs(eng):
             kw = {}
             if use_label:
                 kw['result_label'] = f'ite{eng.opi}'
+                if rng.random() < 0.15:
+                    # a fresh label that extends the label of a gate the host already has: <label>_0, <label>_2 ...
+                    base = rng.choice(sorted(host.gates))
+                    cand = f'{base}_{rng.randint(0, 3)}'
+                    if not host.has_gate(cand):
+                        kw['result_label'] = cand
                 if rng.random() < 0.1 and not host.has_gate(''):
                     kw['result_label'] = ''  # the empty string is a label like any other
                 if getattr(eng, 'taken_label', None) is not None:
@@ -1140,6 +1177,11 @@ def build_specs(eng):
                 kw = {}
                 if use_labels:
                     kw['result_labels'] = [f'pw{eng.opi}_{i}' for i in range(n)]
+                    if n and rng.random() < 0.15:
+                        # labels in a stem/suffix relation: r, r_0, r_1 ... (each of them fresh)
+                        stem = f'r{eng.opi}'
+                        fam = [stem] + [f'{stem}_{i}' for i in range(n)]
+                        kw['result_labels'] = rng.sample(fam, n)
                     if n and rng.random() < 0.1 and not host.has_gate(''):
                         kw['result_labels'][rng.randrange(n)] = ''
                     if n and getattr(eng, 'taken_label', None) is not None:
